@@ -109,6 +109,11 @@ def argmax : List K → Nat
   | [] => 0
   | a :: l => argmaxAux a 0 1 l
 
+/-- `np.amax` -/
+def maxL : List K → K
+  | [] => ((0 : Nat) : K)
+  | a :: l => l.foldl (fun m x => if m < x then x else m) a
+
 def nrm (sq : K → K) (u : V3 K) : K := sq (norm2 u)
 def normalize (sq : K → K) (u : V3 K) : V3 K := smul (((1 : Nat) : K) / nrm sq u) u
 
@@ -401,9 +406,23 @@ def wtet (t : V3 K) (e : Edge3 K) : V3 K := smul (tetVol t e) (smul (((3 : Nat) 
 def cen3 (es : List (Edge3 K)) : V3 K :=
   add (tcc3 es) (smul (((1 : Nat) : K) / vol3 es) (vsum (es.map (wtet (tcc3 es)))))
 
-def tetBad (t : V3 K) (e : Edge3 K) : Bool := !decide (tetVol t e > -(((1 : Nat) : K) / ((1000000000000 : Nat) : K)))
-/-- `not np.all(tet_volumes > -1e-12)` → ValueError -/
-def negTet (es : List (Edge3 K)) : Bool := es.any (tetBad (tcc3 es))
+/-- the signed sub-tetrahedron volumes of one cell -/
+def cellTetVols (sq : K → K) (c : Cell3 K) : List K :=
+  (cellEdges sq c).map (tetVol (tcc3 (cellEdges sq c)))
+
+/-- `tet_volumes` of the whole grid -/
+def allTetVols (sq : K → K) : List (Cell3 K) → List K
+  | [] => []
+  | c :: l => cellTetVols sq c ++ allTetVols sq l
+
+/-- `tol = 1e-12 * max(1.0, np.max(np.abs(tet_volumes), initial=0.0))`: relative to the largest sub-tetrahedron,
+    not below the absolute tolerance for grids of unit size -/
+def tetTol (vs : List K) : K :=
+  let m := maxL (vs.map rabs)
+  (((1 : Nat) : K) / ((1000000000000 : Nat) : K)) * (if ((1 : Nat) : K) < m then m else ((1 : Nat) : K))
+
+/-- `not np.all(tet_volumes > -tol)` → ValueError -/
+def negTets (vs : List K) : Bool := vs.any fun v => !decide (v > -tetTol vs)
 
 structure Grid3 (K : Type) where
   faces : List (List (V3 K))
@@ -424,7 +443,7 @@ def geom3 (sq : K → K) (g : Grid3 K) : Out K :=
     cv := g.cells.map (cellVol3 sq),
     cc := g.cells.map (cellCen3 sq) }
 
-def geom3Err (sq : K → K) (g : Grid3 K) : Bool := g.cells.any fun c => negTet (cellEdges sq c)
+def geom3Err (sq : K → K) (g : Grid3 K) : Bool := negTets (allTetVols sq g.cells)
 
 /-! ### map_geometry: `rotation_matrix`, `project_plane_matrix`, `project_line_matrix`, `map_grid` -/
 
@@ -528,11 +547,6 @@ def geom0 (g : Grid0 K) : Out K :=
 def pairDists (sq : K → K) : List (V3 K) → List K
   | [] => []
   | p :: l => l.map (fun q => nrm sq (sub p q)) ++ pairDists sq l
-
-/-- `np.amax` -/
-def maxL : List K → K
-  | [] => ((0 : Nat) : K)
-  | a :: l => l.foldl (fun m x => if m < x then x else m) a
 
 def cellDiam (sq : K → K) (ps : List (V3 K)) : K := maxL (pairDists sq ps)
 
